@@ -124,7 +124,7 @@ struct View {
     /// bytes of witness-set fields 5 and 4 as they sit in the transaction
     rd_raw: Option<Vec<u8>>, pd_raw: Option<Vec<u8>>,
     scripts: Vec<(u8, Vec<u8>)>, datums: Vec<Vec<u8>>, rd: Vec<(u8, u32, Vec<u8>, u64, u64)>, aux: Option<Vec<u8>>,
-    body_hash_ok: bool, empty_sets: Vec<&'static str>,
+    body_hash_ok: bool, empty_sets: Vec<&'static str>, tx_hash: [u8; 32], tx_bytes: Vec<u8>,
 }
 
 fn enc<T: minicbor::Encode<()>>(x: &T) -> Vec<u8> { minicbor::to_vec(x).unwrap() }
@@ -207,7 +207,7 @@ fn view(tx: &BuiltTransaction) -> Result<View, String> {
         sdh: body.script_data_hash.map(|h| { let mut a = [0u8; 32]; a.copy_from_slice(h.as_ref()); a }),
         rd_raw: ws.redeemer.as_ref().map(|r| r.raw_cbor().to_vec()), pd_raw: ws.plutus_data.as_ref().map(|r| r.raw_cbor().to_vec()),
         adh: body.auxiliary_data_hash.map(|h| { let mut a = [0u8; 32]; a.copy_from_slice(h.as_ref()); a }),
-        scripts, datums, rd, aux, body_hash_ok, empty_sets,
+        scripts, datums, rd, aux, body_hash_ok, empty_sets, tx_hash: tx.tx_hash.0, tx_bytes: bytes.clone(),
     })
 }
 
@@ -216,14 +216,18 @@ fn show_view(v: &View) -> String {
     let mut sc: Vec<String> = v.scripts.iter().map(|(k, b)| format!("{}:{}", k, hex(b))).collect(); sc.sort();
     let mut pd: Vec<String> = v.datums.iter().map(|b| hex(b)).collect(); pd.sort();
     let mut rd: Vec<String> = v.rd.iter().map(|(t, i, d, m, s)| format!("{}:{}:{}:{}:{}", t, i, hex(d), m, s)).collect(); rd.sort();
-    format!("in={} out=[{}] fee={} ttl={} vf={} mint={} coll={} sig=[{}] net={} cr={} ref={} sdh={} adh={} sc=[{}] pd=[{}] rd=[{}] aux={} id={}",
+    let id_free = v.rd.len() <= 1 && v.datums.len() <= 1;
+    let tx_free = id_free && (0..4u8).all(|k| v.scripts.iter().filter(|s| s.0 == k).count() <= 1);
+    format!("in={} out=[{}] fee={} ttl={} vf={} mint={} coll={} sig=[{}] net={} cr={} ref={} sdh={} adh={} sc=[{}] pd=[{}] rd=[{}] aux={} id={} tx={}",
         l(&v.inputs), v.outputs.iter().map(|o| o.show()).collect::<Vec<_>>().join(" "), v.fee, opt(&v.ttl), opt(&v.vf),
         show_assets(&v.mint), l(&v.coll), v.signers.iter().map(|h| hex(h)).collect::<Vec<_>>().join(" "), opt(&v.net),
         v.cr.as_ref().map(|o| o.show()).unwrap_or("none".into()), l(&v.refs),
         // the value where it does not depend on a HashMap iteration order, else its presence
         match &v.sdh { None => "0".to_string(), Some(h) => if v.rd.len() <= 1 && v.datums.len() <= 1 { hex(h) } else { "1".into() } },
         v.adh.is_some() as u8,
-        sc.join(" "), pd.join(" "), rd.join(" "), v.aux.as_ref().map(|b| hex(b)).unwrap_or("none".into()), v.body_hash_ok as u8)
+        sc.join(" "), pd.join(" "), rd.join(" "), v.aux.as_ref().map(|b| hex(b)).unwrap_or("none".into()),
+        // id and full bytes where no HashMap iteration order enters them
+        if id_free { hex(&v.tx_hash) } else { "*".into() }, if tx_free { hex(&v.tx_bytes) } else { "*".into() })
 }
 
 // ------------------------------------------------------------------------------------------ oracle
